@@ -130,6 +130,77 @@ static void body_exit(int t, Out& out) {
   // no clear_mem_cache(): the thread ends with blocks in its cache (5 + 1 released when vs and sum die)
 }
 
+// ------------------------------------------------------------------ body F: calls that end in the (uninstrumented) numerical library
+static void body_libcalls(int t, Out& out) {
+  for (int d : {2 + (t % 2), 3}) {
+    SU_vector a = mkvec(d, probe(d, t % 3)), b = mkvec(d, probe(d, (t + 1) % 3));
+    out.push_back((2.0 * a) * (3.0 * b));                       // scalar product of two expression results
+    out.push_back((a + b) * squids::ACommutator(a, b));
+    { auto es = a.GetEigenSystem(true);
+      for (int i = 0; i < d; i++) out.push_back(gsl_vector_get(es.first.get(), i));
+      for (int i = 0; i < d; i++) for (int j = 0; j < d; j++) { gsl_complex z = gsl_matrix_complex_get(es.second.get(), i, j); out.push_back(GSL_REAL(z)); out.push_back(GSL_IMAG(z)); } }
+    SU_vector u = a.UTransform(b, gsl_complex_rect(0, 0.5)); put(out, u);   // matrix exponential: products, LU solve, random draws
+    { Mat U = ref::eye(d); U(0, 0) = std::cos(0.7); U(1, 1) = std::cos(0.7); U(0, 1) = std::sin(0.7); U(1, 0) = -std::sin(0.7); GslMat Ug(U); SU_vector r = a.UTransform(Ug.g); put(out, r); SU_vector r2 = b.Rotate(Ug.g); put(out, r2); }
+  }
+  SU_vector::clear_mem_cache();
+}
+static gsl_error_handler_t* g_handler0 = nullptr;   // the process-wide GSL error handler the harness installed before any thread ran
+static gsl_error_handler_t* current_gsl_handler();
+
+#ifndef C18_FREE
+// The numerical library is not instrumented, so the explorer cannot preempt inside one of its calls. Each call the library
+// under test makes into it is therefore modelled as a non-atomic operation: on entry the objects it writes and reads are
+// marked as in use by this thread, the thread yields (scheduling point), and only when it is resumed is the real call made
+// and the marks removed. A second thread entering a call on an object that a call of another thread is still using (one of
+// them writing) is a data race on storage the two threads share -- reported on the schedule that exhibits it.
+#include <dlfcn.h>
+#include <gsl/gsl_eigen.h>
+#include <gsl/gsl_blas.h>
+#include <gsl/gsl_linalg.h>
+#include <gsl/gsl_rng.h>
+#include <map>
+namespace opaque {
+static bool enabled = false;
+struct Use { int tid; bool write; };
+static std::multimap<const void*, Use> busy;
+static std::string conflict;
+static long calls = 0;
+static char handler_token;
+struct Scope {
+  std::vector<const void*> mine; bool on; int me;
+  Scope(const char* fn, std::initializer_list<const void*> writes, std::initializer_list<const void*> reads) : on(false), me(-1) {
+    sched::Explorer* e = sched::Explorer::self(); on = enabled && e && e->in_fiber;
+    if (!on) return;
+    me = e->cur; calls++;
+    auto chk = [&](const void* p, bool w) { auto r = busy.equal_range(p); for (auto it = r.first; it != r.second; ++it) if (it->second.tid != me && (w || it->second.write) && conflict.empty()) conflict = fmt("%s entered on thread %d with an object that a call made by thread %d is still using", fn, me, it->second.tid); };
+    for (auto p : writes) if (p) chk(p, true);
+    for (auto p : reads) if (p) chk(p, false);
+    for (auto p : writes) if (p) { busy.insert({p, Use{me, true}}); mine.push_back(p); }
+    for (auto p : reads) if (p) { busy.insert({p, Use{me, false}}); mine.push_back(p); }
+    sched::point();
+  }
+  ~Scope() { if (!on) return; for (auto p : mine) { auto r = busy.equal_range(p); for (auto it = r.first; it != r.second; ++it) if (it->second.tid == me) { busy.erase(it); break; } } }
+};
+template <class F> static F real(const char* name) { void* p = dlsym(RTLD_NEXT, name); if (!p) { fprintf(stderr, "harness: cannot resolve %s\n", name); abort(); } return (F)p; }
+}
+#define OPAQUE_REAL(name) static decltype(&name) real_ = opaque::real<decltype(&name)>(#name)
+extern "C" {
+int gsl_eigen_hermv(gsl_matrix_complex* A, gsl_vector* eval, gsl_matrix_complex* evec, gsl_eigen_hermv_workspace* w) { OPAQUE_REAL(gsl_eigen_hermv); opaque::Scope s("gsl_eigen_hermv", {A->data, eval->data, evec->data, w}, {}); return real_(A, eval, evec, w); }
+int gsl_eigen_hermv_sort(gsl_vector* eval, gsl_matrix_complex* evec, gsl_eigen_sort_t t) { OPAQUE_REAL(gsl_eigen_hermv_sort); opaque::Scope s("gsl_eigen_hermv_sort", {eval->data, evec->data}, {}); return real_(eval, evec, t); }
+int gsl_blas_zgemm(CBLAS_TRANSPOSE_t ta, CBLAS_TRANSPOSE_t tb, const gsl_complex alpha, const gsl_matrix_complex* A, const gsl_matrix_complex* B, const gsl_complex beta, gsl_matrix_complex* C) { OPAQUE_REAL(gsl_blas_zgemm); opaque::Scope s("gsl_blas_zgemm", {C->data}, {A->data, B->data}); return real_(ta, tb, alpha, A, B, beta, C); }
+int gsl_linalg_complex_LU_decomp(gsl_matrix_complex* A, gsl_permutation* p, int* signum) { OPAQUE_REAL(gsl_linalg_complex_LU_decomp); opaque::Scope s("gsl_linalg_complex_LU_decomp", {A->data, p->data}, {}); return real_(A, p, signum); }
+int gsl_linalg_complex_LU_solve(const gsl_matrix_complex* LU, const gsl_permutation* p, const gsl_vector_complex* b, gsl_vector_complex* x) { OPAQUE_REAL(gsl_linalg_complex_LU_solve); opaque::Scope s("gsl_linalg_complex_LU_solve", {x->data}, {LU->data, p->data, b->data}); return real_(LU, p, b, x); }
+int gsl_matrix_complex_memcpy(gsl_matrix_complex* dest, const gsl_matrix_complex* src) { OPAQUE_REAL(gsl_matrix_complex_memcpy); opaque::Scope s("gsl_matrix_complex_memcpy", {dest->data}, {src->data}); return real_(dest, src); }
+int gsl_matrix_complex_add(gsl_matrix_complex* a, const gsl_matrix_complex* b) { OPAQUE_REAL(gsl_matrix_complex_add); opaque::Scope s("gsl_matrix_complex_add", {a->data}, {b->data}); return real_(a, b); }
+int gsl_matrix_complex_sub(gsl_matrix_complex* a, const gsl_matrix_complex* b) { OPAQUE_REAL(gsl_matrix_complex_sub); opaque::Scope s("gsl_matrix_complex_sub", {a->data}, {b->data}); return real_(a, b); }
+int gsl_matrix_complex_scale(gsl_matrix_complex* a, const gsl_complex x) { OPAQUE_REAL(gsl_matrix_complex_scale); opaque::Scope s("gsl_matrix_complex_scale", {a->data}, {}); return real_(a, x); }
+unsigned long int gsl_rng_uniform_int(const gsl_rng* r, unsigned long int n) { OPAQUE_REAL(gsl_rng_uniform_int); opaque::Scope s("gsl_rng_uniform_int", {r->state}, {}); return real_(r, n); }
+gsl_error_handler_t* gsl_set_error_handler(gsl_error_handler_t* h) { OPAQUE_REAL(gsl_set_error_handler); opaque::Scope s("gsl_set_error_handler", {&opaque::handler_token}, {}); return real_(h); }
+gsl_error_handler_t* gsl_set_error_handler_off(void) { OPAQUE_REAL(gsl_set_error_handler_off); opaque::Scope s("gsl_set_error_handler_off", {&opaque::handler_token}, {}); return real_(); }
+}
+#endif
+static gsl_error_handler_t* current_gsl_handler() { gsl_error_handler_t* h = gsl_set_error_handler_off(); gsl_set_error_handler(h); return h; }
+
 static bool same(const std::vector<Out>& a, const std::vector<Out>& b, bool exact, std::string& why) {
   if (a.size() != b.size()) { why = "thread count"; return false; }
   for (size_t t = 0; t < a.size(); t++) { if (a[t].size() != b[t].size()) { why = fmt("thread %zu produced %zu values, reference %zu", t, a[t].size(), b[t].size()); return false; }
@@ -140,7 +211,7 @@ static bool same(const std::vector<Out>& a, const std::vector<Out>& b, bool exac
 #ifdef C18_FREE
 // ------------------------------------------------------------------ race pass: free running under ThreadSanitizer
 int main(int argc, char** argv) {
-  Args ar = parse(argc, argv); quiet_gsl();
+  Args ar = parse(argc, argv); quiet_gsl(); g_handler0 = current_gsl_handler();
   for (int d = 2; d <= 6; d++) ref::basis(d);   // the harness's lazily built reference bases are not thread safe: build them before any thread starts
   int reps = (int)ar.geti("reps", 20);
   for (int rep = 0; rep < reps; rep++) for (int n = 2; n <= 3; n++) {
@@ -155,6 +226,10 @@ int main(int argc, char** argv) {
     { std::vector<Out> out(n); std::vector<std::thread> th; for (int t = 0; t < n; t++) th.emplace_back([&, t] { body_own_solver(t, out[t]); }); for (auto& x : th) x.join();
       std::vector<Out> solo(n); for (int t = 0; t < n; t++) { std::thread x([&, t] { body_own_solver(t, solo[t]); }); x.join(); }
       std::string why; count("evaluations"); if (!same(out, solo, true, why)) violation("free-running:own-solver:differs-from-solo", J().i("threads", n).str("why", why).done()); }
+    { std::vector<Out> out(n); std::vector<std::thread> th; for (int t = 0; t < n; t++) th.emplace_back([&, t] { for (int q = 0; q < 4; q++) body_libcalls(t, out[t]); }); for (auto& x : th) x.join();
+      std::vector<Out> solo(n); for (int t = 0; t < n; t++) { std::thread x([&, t] { for (int q = 0; q < 4; q++) body_libcalls(t, solo[t]); }); x.join(); }
+      std::string why; count("evaluations"); if (!same(out, solo, true, why)) violation("free-running:library-calls:differs-from-solo", J().i("threads", n).str("why", why).done());
+      if (current_gsl_handler() != g_handler0) { violation("free-running:process-wide-error-handler-changed", J().i("threads", n).done()); gsl_set_error_handler(g_handler0); } }
     distinct(ref::fnv(&rep, 4, n));
   }
   sample(J().str("pass", "free-running ThreadSanitizer pass over bodies own-vectors, hand-over ring, shared solver, thread exit").i("repetitions", reps).done());
@@ -168,11 +243,11 @@ static std::vector<Out> g_out, g_ref; static bool g_have_ref; static Ring* g_rin
 static long g_live_before_threads; static std::unique_ptr<SU_vector>* g_shop_owner = nullptr;
 
 int main(int argc, char** argv) {
-  Args ar = parse(argc, argv); quiet_gsl(); install_crash_reporter();
+  Args ar = parse(argc, argv); quiet_gsl(); install_crash_reporter(); g_handler0 = current_gsl_handler();
   for (int d = 2; d <= 6; d++) ref::basis(d);
   bool th = ar.thorough();
-  std::vector<Scenario> scen = {{"own-vectors", 2, 2}, {"hand-over-ring", 2, 2}, {"shared-solver", 2, 2}, {"thread-exit", 2, 1}, {"own-solver", 2, 1}};
-  if (th) { scen = {{"own-vectors", 2, 3}, {"own-vectors", 3, 2}, {"hand-over-ring", 2, 4}, {"hand-over-ring", 3, 3}, {"shared-solver", 2, 3}, {"shared-solver", 3, 2}, {"thread-exit", 2, 2}, {"thread-exit", 3, 1}, {"own-solver", 2, 2}, {"own-solver", 3, 1}}; }
+  std::vector<Scenario> scen = {{"own-vectors", 2, 2}, {"hand-over-ring", 2, 2}, {"shared-solver", 2, 2}, {"thread-exit", 2, 1}, {"own-solver", 2, 1}, {"library-calls", 2, 1}};
+  if (th) { scen = {{"library-calls", 2, 2}, {"library-calls", 3, 1}, {"own-vectors", 2, 3}, {"own-vectors", 3, 2}, {"hand-over-ring", 2, 4}, {"hand-over-ring", 3, 3}, {"shared-solver", 2, 3}, {"shared-solver", 3, 2}, {"thread-exit", 2, 2}, {"thread-exit", 3, 1}, {"own-solver", 2, 2}, {"own-solver", 3, 1}}; }
   long sc_index = 0, total_exec = 0, total_points = 0;
   arena::A().hook = []() { sched::point(); };
   for (auto& sc : scen) {
@@ -182,7 +257,9 @@ int main(int argc, char** argv) {
     ex.setup = [&]() {
       arena::Arena& A = arena::A(); A.active = false; SU_vector::clear_mem_cache(); A.reset(); A.counting = false; A.align_mode = 2; A.active = true;
       g_out.assign(sc.n, Out());
-      if (sc.name == "own-vectors") for (int t = 0; t < sc.n; t++) ex.spawn([t]() { body_own(t, g_out[t]); });
+      opaque::enabled = (sc.name == "library-calls"); opaque::busy.clear(); opaque::conflict.clear();
+      if (sc.name == "library-calls") for (int t = 0; t < sc.n; t++) ex.spawn([t]() { body_libcalls(t, g_out[t]); });
+      else if (sc.name == "own-vectors") for (int t = 0; t < sc.n; t++) ex.spawn([t]() { body_own(t, g_out[t]); });
       else if (sc.name == "hand-over-ring") { delete g_ring; g_ring = new Ring(); g_ring->n = sc.n; for (int t = 0; t < sc.n; t++) g_ring->ch.emplace_back(new Chan()); for (int t = 0; t < sc.n; t++) ex.spawn([t]() { body_ring(*g_ring, t, g_out[t]); }); }
       else if (sc.name == "shared-solver") { g_solver = make_solver(3); static std::unique_ptr<SU_vector> shop; shop.reset(new SU_vector(mkvec(3, probe(3, 1)))); g_shared_op = shop.get(); g_shop_owner = &shop; g_expect_query.assign(sc.n, Out()); for (int t = 0; t < sc.n; t++) body_query(*g_solver, t, g_expect_query[t], false); for (int t = 0; t < sc.n; t++) ex.spawn([t]() { body_query(*g_solver, t, g_out[t]); }); }
       else if (sc.name == "own-solver") { for (int t = 0; t < sc.n; t++) ex.spawn([t]() { body_own_solver(t, g_out[t]); }); }
@@ -194,6 +271,8 @@ int main(int argc, char** argv) {
       std::string ctx = "{\"replay\":" + jstr(sc.name + ";" + std::to_string(sc.n) + ";" + sch) + ",\"scenario\":" + jstr(sc.name) + ",\"threads\":" + std::to_string(sc.n) + ",\"schedule\":" + jstr(sch);
       if (deadlock || livelock) { violation("threads:" + sc.name + (deadlock ? ":deadlock" : ":livelock"), ctx + "}"); finish(); fflush(stdout); _exit(0); }
       arena::Arena& A = arena::A();
+      if (!opaque::conflict.empty()) { viol++; violation("threads:" + sc.name + ":two-threads-in-library-calls-on-one-object", ctx + ",\"what\":" + jstr(opaque::conflict) + "}"); }
+      if (current_gsl_handler() != g_handler0) { viol++; violation("threads:" + sc.name + ":process-wide-error-handler-changed", ctx + "}"); gsl_set_error_handler(g_handler0); }
       // every worker thread has ended (joined): what it cached must have been given back
       if (sc.name == "thread-exit") { long live = A.live_blocks() - g_live_before_threads; if (live != 0) { viol++; violation("thread-exit:cached-blocks-not-released", ctx + ",\"blocks_still_live\":" + std::to_string(live) + "}"); } }
       // main-thread teardown
@@ -217,6 +296,7 @@ int main(int argc, char** argv) {
     distinct(ref::fnv(sc.name.data(), sc.name.size(), sc.n));
     sample("{\"scenario\":" + jstr(sc.name) + ",\"threads\":" + std::to_string(sc.n) + ",\"preemption_bound\":" + std::to_string(sc.bound) + ",\"executions_at_last_bound\":" + std::to_string(ex.executions) + ",\"distinct_outcomes\":" + std::to_string(outcomes.size()) + "}");
   }
+  count("library_calls_modelled_as_non_atomic", opaque::calls);
   count("executions", total_exec); count("states", total_points); count("transitions", total_points); count("evaluations", total_exec);
   finish();
   return 0;
